@@ -79,8 +79,17 @@ func (c14) Gen(r *rand.Rand, tier string, run int) *core.Case {
 			total++
 		}
 	}
+	var lastUpdate int64
 	for i := 0; i < updates; i++ {
+		if lastUpdate != 0 && r.IntN(3) == 0 {
+			// the service publishes a value it has published before (clients
+			// may have written others in between): an accepted write like any
+			// other, one more event carrying that value
+			c.Ops = append(c.Ops, core.Op{Kind: "update", Actor: 60 + i%2*5, X: lastUpdate})
+			continue
+		}
 		c.Ops = append(c.Ops, core.Op{Kind: "update", Actor: 60 + i%2*5, X: next})
+		lastUpdate = next
 		next++
 	}
 	// the service writes through the direct proxy of an object it created
